@@ -55,7 +55,7 @@ var funcMap = template.FuncMap{
 
 // oneLine escapes control characters and invalid UTF-8 so that the text fits into a line comment.
 func oneLine(s string) string {
-	if strings.IndexFunc(s, func(r rune) bool { return r < 0x20 || r == 0x7f || r == utf8.RuneError }) == -1 {
+	if strings.IndexFunc(s, func(r rune) bool { return r < 0x20 || r == 0x7f || r == 0xfeff || r == utf8.RuneError }) == -1 {
 		return s
 	}
 	q := strconv.Quote(s)
